@@ -167,6 +167,8 @@ pub fn alphabet(name: &str) -> Vec<Op> {
             v.push(put(0, C_E));
             v.push(put(1, C_L));
             v.push(Op::Put { k: 0, c: C_L, ch: 1 });
+            v.push(Op::Put { k: 0, c: C_L, ch: 3 });
+            v.push(Op::Put { k: 1, c: C_H, ch: 3 });
             v.push(Op::Put { k: 2, c: C_X, ch: 2 });
             v.push(Op::Abort { k: 0, c: C_L, ch: 1 });
             v.push(Op::Abort { k: 1, c: C_X, ch: 0 });
